@@ -13,6 +13,19 @@ NAMES = ["alpha", "beta", "gamma", "delta", "eps", "zeta", "eta", "theta"]
 OBJ = ["Ra", "Rb", "Rc", "Rd", "Re", "Rf", "Rg", "Rh", "Ri", "Rj"]
 
 
+_ENUM_SERIAL = [0]
+
+
+def _serial_tag(k):
+    """letters only (a digit would be a word boundary for the name normalisation): 1 -> b, 27 -> bb"""
+    out = ""
+    while True:
+        out = "abcdefghijklmnopqrstuvwxyz"[k % 26] + out
+        k //= 26
+        if k == 0:
+            return "X" + out
+
+
 def gen_fields(rng, size, malformed):
     n = rng.choice([0, 1, 1, 2, 2, 3, 4, 5])
     fields = []
@@ -33,7 +46,11 @@ def gen_fields(rng, size, malformed):
                     end = 0
             conv = adef.mk_direct("crate::Ty") if (malformed and rng.random() < 0.15) else None
         else:
-            conv = None
+            # an inline enum that is fine for every width (`try`, one variant numbered 0): the enum pass runs BEFORE the
+            # layout passes and sees the ill-formed ranges first; whatever the range, the outcome is the layout verdict and
+            # never a panic (seed C11-10: a width computed as end - start there)
+            _ENUM_SERIAL[0] += 1
+            conv = adef.mk_enum(f"En{NAMES[i].capitalize()}{_serial_tag(_ENUM_SERIAL[0])}", [adef.mk_variant("Va", 0)], True) if rng.random() < 0.15 else None
             if r < 0.55:      # tile
                 start = pos
                 end = min(size, start + rng.choice([1, 1, 2, 3, 4, 7, 8, 9]))
